@@ -375,7 +375,7 @@ CONTROLS = {
     'C13': ['selftest/mutants/unfix-4faa0f0.patch', 'selftest/mutants/unfix-d5d2c0e.patch', 'selftest/mutants/unfix-d882cd3.patch', 'seeded/C13-a/patch.diff', 'seeded/C13-b/patch.diff', 'seeded/C13-c/patch.diff', 'seeded/C13-d/patch.diff', 'seeded/C13-e/patch.diff'],
     'C14': ['selftest/mutants/unfix-2e6b8d5.patch', 'selftest/mutants/unfix-2d01ace.patch', 'selftest/mutants/unfix-7b76bb5.patch', 'selftest/mutants/unfix-16c9f60.patch', 'seeded/C14-b/patch.diff', 'seeded/C14-d/patch.diff', 'seeded/C14-e/patch.diff'],
     'C15': ['selftest/mutants/unfix-2d01ace.patch', 'selftest/mutants/unfix-85ebe8e.patch', 'selftest/mutants/unfix-164e21b.patch', 'seeded/C15-a/patch.diff', 'seeded/C15-b/patch.diff', 'seeded/C15-c/patch.diff', 'seeded/C15-d/patch.diff', 'seeded/C15-e/patch.diff'],
-    'C16': ['selftest/mutants/unfix-b52ed69.patch', 'selftest/mutants/unfix-2d81d25.patch', 'selftest/mutants/unfix-e0980eb.patch', 'selftest/mutants/unfix-6c89f9a.patch', 'seeded/C16-a/patch.diff', 'seeded/C16-b/patch.diff', 'seeded/C16-c/patch.diff', 'seeded/C16-d/patch.diff', 'seeded/C16-e/patch.diff'],
+    'C16': ['selftest/mutants/unfix-b52ed69.patch', 'selftest/mutants/unfix-2d81d25.patch', 'seeded/C16-a/patch.diff', 'seeded/C16-b/patch.diff', 'seeded/C16-c/patch.diff', 'seeded/C16-d/patch.diff'],
     'C17': ['seeded/C17-a/patch.diff', 'seeded/C17-b/patch.diff', 'seeded/C17-c/patch.diff', 'seeded/C17-d/patch.diff', 'seeded/C17-e/patch.diff'],
     'C18': ['seeded/C18-a/patch.diff', 'seeded/C18-b/patch.diff', 'seeded/C18-c/patch.diff', 'seeded/C18-d/patch.diff', 'seeded/C18-e/patch.diff'],
     'C19': ['seeded/C19-a/patch.diff', 'seeded/C19-b/patch.diff', 'seeded/C19-c/patch.diff', 'seeded/C19-d/patch.diff', 'seeded/C19-e/patch.diff'],
@@ -398,8 +398,8 @@ NEGATIVE = {
     'C13': ['selftest/negative/R3N6-p1.patch', 'selftest/negative/R3N6-p2.patch', 'selftest/negative/R3N6-p3.patch', 'selftest/negative/R3N6-p4.patch'],
     'C14': ['selftest/negative/R3N7-p1.patch', 'selftest/negative/R3N7-p2.patch', 'selftest/negative/R3N7-p3.patch', 'selftest/negative/R3N7-p4.patch'],
     'C15': ['selftest/negative/R3N7-p1.patch', 'selftest/negative/R3N7-p2.patch', 'selftest/negative/R3N7-p3.patch', 'selftest/negative/R3N7-p4.patch'],
-    'C16': ['selftest/negative/N5-C16-helper-correct-rounding.patch', 'selftest/negative/R3N8-p1.patch', 'selftest/negative/R3N8-p2.patch', 'selftest/negative/R3N8-p3.patch', 'selftest/negative/R3N8-p4.patch'],
-    'C17': ['selftest/negative/N10-r5-mapped-closure.patch', 'selftest/negative/R3N7-p1.patch', 'selftest/negative/R3N7-p2.patch', 'selftest/negative/R3N7-p3.patch', 'selftest/negative/R3N7-p4.patch', 'selftest/negative/R3N8-p1.patch', 'selftest/negative/R3N8-p2.patch', 'selftest/negative/R3N8-p3.patch', 'selftest/negative/R3N8-p4.patch'],
+    'C16': ['selftest/negative/N5-C16-helper-correct-rounding.patch', 'selftest/negative/R3N8-p1.patch', 'selftest/negative/R3N8-p2.patch', 'selftest/negative/R3N8-p3.patch'],
+    'C17': ['selftest/negative/N10-r5-mapped-closure.patch', 'selftest/negative/R3N7-p1.patch', 'selftest/negative/R3N7-p2.patch', 'selftest/negative/R3N7-p3.patch', 'selftest/negative/R3N7-p4.patch', 'selftest/negative/R3N8-p1.patch', 'selftest/negative/R3N8-p2.patch', 'selftest/negative/R3N8-p3.patch'],
     'C18': ['selftest/negative/N6-C18-helper-correct-bits.patch', 'selftest/negative/R3N6-p1.patch', 'selftest/negative/R3N6-p2.patch', 'selftest/negative/R3N6-p3.patch', 'selftest/negative/R3N6-p4.patch'],
     'C19': ['selftest/negative/N10-r5-mapped-closure.patch', 'selftest/negative/R3N7-p1.patch', 'selftest/negative/R3N7-p2.patch', 'selftest/negative/R3N7-p3.patch', 'selftest/negative/R3N7-p4.patch'],
 }
